@@ -307,6 +307,24 @@ pub fn run(ctx: &mut Ctx) {
                         ids.extend(cl.request("GET", Some("https"), "localhost", Some("/anything"), &hs, true));
                         ids.extend(cl.request("GET", Some("https"), "localhost", Some("/speed/bogus"), ahdrs, true));
                         ids.extend(cl.request("GET", Some("https"), "localhost", Some("/rp/x"), ahdrs, true));
+                        // a request the endpoint rejects while it builds it: secret-bearing headers under names that are not
+                        // valid lower-case field names (the rejection is logged)
+                        let odd: Vec<(String, Vec<u8>)> = ahdrs
+                            .iter()
+                            .enumerate()
+                            .map(|(k, (n, v))| {
+                                // (quiche lower-cases names, so capitals would not do)
+                                let name = match k % 3 {
+                                    0 => format!("{} ", n),
+                                    1 => format!(" {}", n),
+                                    _ => format!("{}\u{7f}", n),
+                                };
+                                (name, v.clone())
+                            })
+                            .collect();
+                        if !odd.is_empty() {
+                            ids.extend(cl.request("CONNECT", None, "example.org:443", None, &odd, false));
+                        }
                         cl.wait(Duration::from_secs(2), |c| ids.iter().all(|i| c.streams.get(i).map(|s| s.status.is_some() || s.reset.is_some() || s.finished).unwrap_or(false)));
                         cl.close();
                         cl.wait(Duration::from_millis(30), |_| false);
